@@ -216,7 +216,8 @@ var c19Types = []string{"int", "int", "string", "bool", "txt", "txt", "Pair", "i
 func c19Elem(t string) string { return strings.TrimSuffix(t, "[]") }
 
 func c19Lit(r *hx.Rng, t string) string {
-	if r.Intn(10) == 0 {
+	// a bool may end up bound to a disabled modifier, which refuses null
+	if t != "bool" && r.Intn(10) == 0 {
 		return "null"
 	}
 	switch t {
@@ -697,13 +698,14 @@ func c19Edits(p *c19Prog) []c19Edit {
 	type cal struct {
 		name      string
 		ins, outs []c19Param
+		stage     bool
 	}
 	var cals []cal
 	for _, s := range p.Stages {
-		cals = append(cals, cal{s.Name, s.Ins, s.Outs})
+		cals = append(cals, cal{s.Name, s.Ins, s.Outs, true})
 	}
 	for _, pl := range p.Pipes {
-		cals = append(cals, cal{pl.Name, pl.Ins, pl.Outs})
+		cals = append(cals, cal{pl.Name, pl.Ins, pl.Outs, false})
 	}
 	has := func(ps []c19Param, n string) bool {
 		for _, q := range ps {
@@ -726,7 +728,10 @@ func c19Edits(p *c19Prog) []c19Edit {
 					break
 				}
 			}
-			out = append(out, c19Edit{Kind: "remove_in", Callable: c.name, Param: in.Name, Note: "-"})
+			if c.stage {
+				// an input of a pipeline is used by its calls; only a stage input can be dropped
+				out = append(out, c19Edit{Kind: "remove_in", Callable: c.name, Param: in.Name, Note: "-"})
+			}
 		}
 		for _, o := range c.outs {
 			out = append(out, c19Edit{Kind: "rename_out", Callable: c.name, Param: o.Name, New: "renamed", Note: "fresh"})
@@ -924,7 +929,7 @@ func c19EmitEdit(w interface{ Write([]byte) (int, error) }, i int, fa c19Files, 
 	}
 	st, db := dump(fb)
 	fmt.Fprintf(w, "E %d %s %s %s %s\n", i, e, st, c19Enc(fb), db)
-	if inv, ok := e.inverse(); ok && st == "ok" {
+	if inv, ok := e.inverse(); ok && st == "ok" && e.Note == "fresh" {
 		// the top-level pipeline may itself have been renamed
 		top2 := top
 		if e.Kind == "rename" && e.Callable == top {
